@@ -319,7 +319,7 @@ fire("c08-name-lookup-for-any-node", ["C08"], SU,
      "                return None",
      "P/make_subst_func")
 fire("c08-mutates-callers-dict", ["C08"], SU,
-     "    variable_assignments = variable_assignments.copy()\n",
+     "    variable_assignments = dict(variable_assignments)\n",
      "",
      "P/substitute/copy-before-mutation")
 fire("c08-lookup-falls-to-subscript-handler", ["C08"], SU,
@@ -2829,6 +2829,10 @@ fire("c17-parsed-list-hash-memoized", ["C17"], "pymbolic/parser.py",
      "    def __hash__(self) -> int:  # type: ignore[override]\n        result = hash(type(self).__name__)",
      "    @pytools.memoize_method\n    def __hash__(self) -> int:  # type: ignore[override]\n        result = hash(type(self).__name__)",
      "S/pickle/memoized-hash/FinalizedList")
+fire("c08-revert-substitute-own-dict", ["C08"], "pymbolic/mapper/substitutor.py",
+     "    variable_assignments = dict(variable_assignments)\n",
+     "    variable_assignments = variable_assignments.copy()\n",
+     "P0/substitute/table-semantics")
 fire("c15-revert-solver-composite-parameters", ["C15"], "pymbolic/algorithm.py",
      "        if inner_dep_map(param) & unknowns_set:\n            raise RuntimeError(",
      "        if inner_dep_map(param) & unknowns_set:\n            warn(",
